@@ -36,6 +36,7 @@ func call(fx *ms.Fixtures, cfg ms.Config) (res string) {
 }
 
 func TestCheck(t *testing.T) {
+	vk.UseT(t)
 	r := vk.Start("C18", "model_checking", 40*time.Second, 4*time.Minute)
 	fx := ms.NewFixtures(1000)
 	if r.Replay != "" {
